@@ -88,6 +88,11 @@ def handleBasic : List String → Option String
       if !(okKv pu su Uu && okKv pv sv Uv && inDom pu su Uu u && inDom pv sv Uv v && P.length == su * sv) then return "ERR"
       let S := surfaceDersAt pu pv (fn Uu) (fn Uv) sv P (findSpanLinear pu (fn Uu) su u) (findSpanLinear pv (fn Uv) sv v) u v ord (tri == "1")
       return showPts2 (if rat == "1" then ratSurfaceDers S ord else S)
+  | ["bbox", ps] => do
+      let P ← parsePts ps
+      if P.isEmpty then return "ERR"
+      let bb := boundingBox P
+      return s!"{showList bb.1} {showList bb.2}"
   | ["cgrid", rat, p, us, ps, delta] => do
       let p ← p.toNat?; let U ← parseList us; let P ← parsePts ps; let dl ← parseRat delta
       if !(okKv p P.length U) || dl ≤ 0 then return "ERR"
